@@ -23,6 +23,15 @@ type caseC19 struct {
 	Frame  Hex      `json:"frame,omitempty"`
 	Steps  *caseC12 `json:"steps,omitempty"`
 	Prefix int      `json:"prefix,omitempty"`
+	// Wild: calls made after the steps whose argument is outside MQTT's range
+	// for the field but inside the Go parameter type (SetSubscriptionID(-1),
+	// SetQoS(200), ...): such packets are values a program can hold.
+	Wild []wildC19 `json:"wild,omitempty"`
+}
+
+type wildC19 struct {
+	Name string `json:"name"`
+	V    int64  `json:"v"`
 }
 
 // c19InFlight is the case being rendered, for the watchdog.
@@ -92,6 +101,17 @@ func checkC19(c caseC19) (sig, msg string) {
 			byName[st.Setter].Apply(p, &m, st.Index)
 			if sig, msg := renderTotal(p); msg != "" {
 				return sig, msg
+			}
+		}
+		for _, w := range c.Wild {
+			var did bool
+			if pan := guard.Call(func() { did = api.Wild(p, w.Name, w.V) }); pan != nil {
+				return "", "" // the setter itself refuses the value: not a rendering matter
+			}
+			if did {
+				if sig, msg := renderTotal(p); msg != "" {
+					return sig, msg
+				}
 			}
 		}
 		return renderTotal(p)
@@ -249,10 +269,20 @@ func TestC19(t *testing.T) {
 			cs.Steps = append(cs.Steps, stepC12{Setter: s.Name, Index: idx, AfterGob: packModel(m), After: m.String()})
 		}
 		c := caseC19{Origin: "steps", Steps: &cs, Prefix: n}
+		class := "under-construction/"
+		if len(api.WildFor(typ)) > 0 && rapid.IntRange(0, 1).Draw(t, "wild") == 0 {
+			for k := rapid.IntRange(1, 3).Draw(t, "nwild"); k > 0; k-- {
+				c.Wild = append(c.Wild, wildC19{
+					Name: rapid.SampledFrom(api.WildFor(typ)).Draw(t, "wildname"),
+					V: rapid.SampledFrom([]int64{-1, -2, 0, 3, 4, 127, 128, 200, 255, 268435455, 268435456, 1 << 31, 1<<32 - 1, 1 << 35, 1 << 40, 1<<63 - 1, -1 << 63}).Draw(t, "wildv"),
+				})
+			}
+			class = "under-construction+out-of-range-arguments/"
+		}
 		sig, msg := checkC19(c)
 		r.Evals(int64(n))
-		r.Case(vf.FPs("steps", fmt.Sprint(cs.Steps)), true, "under-construction/"+typeName(typ), func() interface{} {
-			return map[string]interface{}{"type": typeName(typ), "setter_calls": n, "state": m.String()}
+		r.Case(vf.FPs("steps", fmt.Sprint(cs.Steps), fmt.Sprint(c.Wild)), true, class+typeName(typ), func() interface{} {
+			return map[string]interface{}{"type": typeName(typ), "setter_calls": n, "state": m.String(), "then": c.Wild}
 		})
 		if msg != "" {
 			report(c, sig, msg)
